@@ -1,0 +1,7 @@
+//go:build !verif
+
+package spine
+
+// verifPoint marks a point of interest for the verification harness. Without the
+// build tag "verif" it is an empty function that the compiler removes.
+func verifPoint(string, any) {}
